@@ -40,7 +40,8 @@ Judge(ev) ==
   ELSE IF ~e.range /\ (ev.wv = 1) # wf THEN "C05: binson_writer_verify disagrees with Layer A on the output"
   ELSE ""
 
-Next == /\ l <= Len(Tr) /\ bad = "" /\ l' = l + 1
+\* every line is an independent execution: validation continues after a disagreement
+Next == /\ l <= Len(Tr) /\ l' = l + 1
         /\ LET m == Judge(Tr[l]) IN
            /\ bad' = m
            /\ (m # "" => PrintT("TRACE-VIOLATION " \o SubSeq(m, 1, 3) \o ": line " \o ToString(l) \o ": " \o SubSeq(m, 6, Len(m))))
